@@ -38,7 +38,7 @@ inductive Obs
   | sInit (v : Nat)                    -- peer sent SETTINGS_INITIAL_WINDOW_SIZE = v
   | sMax (v : Nat)                     -- peer sent SETTINGS_MAX_FRAME_SIZE = v
   | connError                          -- MOSN answered with a connection error (and stops)
-  deriving Repr
+  deriving Repr, DecidableEq
 
 inductive Label
   | openStream (len : Nat)
